@@ -103,7 +103,7 @@ def _reset(pe):
     pe.Obs.N_sigma_dict.clear()
 
 
-def analyse_and_compare(pe, o, pars, fft, source, samples=None):
+def analyse_and_compare(pe, o, pars, fft, source, samples=None, before=None):
     """Runs gamma_method on a fresh copy and compares with the reference.
     Returns (status, text, info): status in ok / skip / fail."""
     import copy
@@ -114,6 +114,8 @@ def analyse_and_compare(pe, o, pars, fft, source, samples=None):
     ns = pars.get('N_sigma', 1.0)
     exp = ref.r_gamma(r, S, te, ns)
     refusal = [v for v in exp.values() if isinstance(v, str)]
+    if before is not None:
+        before()            # call history: analyses made before the parameters are set (no reset in between)
     kw = _set_source(pe, source, pars, list(exp))
     if not fft:
         kw['fft'] = False
@@ -254,6 +256,46 @@ def run_case(case):
                                 acc.skip(info)
                             else:
                                 acc.ok(('seq', gi, order, ci, second_replica, d, repr(pars)), True, 'sequence:' + info)
+        # parameters delivered through the global default / the per-ensemble dictionary AFTER default analyses of the same
+        # ensemble (same object, another object, a derived object) have been made in this process
+        import copy
+        lay = {'A|r1': enlarge(cfg['eqA'], 3), 'A|r2': enlarge(cfg['c8'], 3)}
+        o, samples, cfgs = alpha.make_obs(pe, lay, ('c02glob', d), d)
+        other, _, _ = alpha.make_obs(pe, {'A|r1': enlarge(cfg['c12'], 3)}, ('c02glob-other', d), d)
+
+        def prelude():
+            for x in (copy.deepcopy(o), other, other * 2.0):
+                try:
+                    x.gamma_method()
+                except Exception:
+                    pass
+        for pars in (PARAMS[3], PARAMS[1], PARAMS[4], PARAMS[7]):
+            for source in ('global', 'dict', 'kw'):
+                sub = dict(case, part='after-default-analyses', pars=pars, source=source)
+                st, txt, info = analyse_and_compare(pe, o, pars, True, source, samples, before=prelude)
+                if st == 'fail':
+                    acc.fail('gamma-sequence:after-default:' + info, sub, 'parameters %s given as %s after default analyses on the same ensemble (%s data): %s' % (pars, source, d, txt))
+                elif st == 'skip':
+                    acc.skip(info)
+                else:
+                    acc.ok(('seq-glob', d, repr(pars), source), True, 'sequence:after-default')
+        # an observable with a covariance input given as ndarray: analysed, the caller re-uses its array, analysed again
+        S0 = np.array(alpha.cov_matrix(2, True, 'c02alias'), dtype=float)
+        S = S0.copy()
+        cl = pe.cov_Obs([0.7, 1.1], S, 'cvalias')
+        mixed = o * cl[0] + cl[1]
+        mixed.gamma_method()
+        first = (mixed.dvalue, dict(mixed.e_dvalue))
+        S *= 25.0
+        S[0, 1] = S[1, 0] = 0.0
+        again = o * cl[0] + cl[1]
+        for x in (mixed, again):
+            x.gamma_method()
+            if x.dvalue != first[0] or dict(x.e_dvalue) != first[1]:
+                acc.fail('gamma-sequence:covariance-input-aliasing', dict(case, part='cov-alias'), 'error %r -> %r after the caller modified the array it had passed to cov_Obs' % (first[0], x.dvalue))
+                break
+        else:
+            acc.ok(('seq-cov-alias', d), True, 'sequence:cov-alias')
         acc.sample({'kind': 'sequence', 'groups': groups, 'data': d, 'orders': 'every permutation of each group'})
     elif kind == 'multi':
         # several ensembles, covariance inputs, per-ensemble parameters
